@@ -59,7 +59,7 @@ def exSel : Sel :=
                parts := [.simple (.id (str "#i")), .simple (.cls (str ".c")),
                          .simple (.attrib (some (str "q")) (str "x") (some (.inc, .string (str "\"v\"")))),
                          .simple (.pclass (str ":hover")),
-                         .simple (.pfunc (str ":nth-child(") (.dimension (str "2n")) [.plus, .number (str "1")]),
+                         .simple (.pfunc (str ":nth-child(") (.dimension (str "2n")) [.number (str "+1")]),
                          .neg (.simple (.cls (str ".d")))],
                pelem := some (.dbl (str "::after")) },
     rest := [(.child, ⟨true, true⟩,
@@ -96,5 +96,13 @@ theorem exSel_spec : exSel.spec = (1, 5, 5) := by decide
 /-- … and the executable model, run on it, agrees (a test, labelled as one) -/
 theorem exSel_run : (Selector.finish (run Gen.tables exNs exSel.toks)).spec = (1, 5, 5) :=
   (specificity exNs exSel exSel_wf).2.2.trans exSel_spec
+
+
+/-- the rendering of the grammar is what the tokenizer model and the pre-pass produce from the text
+(a kernel-evaluated instance; the `sel` correspondence checks the same on every generated selector) -/
+theorem exSel_text :
+    prepass Gen.tables ((tokenize Gen.tables ⟨false, true⟩
+      (str "p|a#i.c[q|x~=\"v\"]:hover:nth-child(2n+1):not(.d)::after > *|b:not(|e):before")).toks.map
+        (fun k => (TT.ofString k.typ, k.val))) = exSel.toks := by decide +kernel
 
 end CssVerif.C16
